@@ -129,7 +129,7 @@ impl<const K: usize> Iterator for PolyhedraIter<'_, K> {
     }
 
     fn size_hint(&self) -> (usize, Option<usize>) {
-        (self.tree.len(), Some(self.tree.len()))
+        self.iter.iter.size_hint()
     }
 }
 
